@@ -192,10 +192,35 @@ func StuckSite() (site string, dump string) {
 	return sites[0], sb.String()
 }
 
+// Plain makes RunOne call the body directly instead of inside a synctest bubble. It is for
+// scenarios whose system under test is a child process (the code generator), where there is no
+// goroutine, clock or I/O of gqlgen's inside this process to control.
+var Plain bool
+
 // RunOne executes body in a fresh bubble with the given tape.
 func RunOne(t *testing.T, tape *Tape, scenario, property, tier string, body func(rc *RunCtx)) *RunResult {
 	res := &RunResult{Type: "end"}
 	var w *World
+	if Plain {
+		w = NewWorld(tape)
+		rc := &RunCtx{T: t, Tape: tape, W: w, Property: property, Tier: tier, Scenario: scenario, Res: res}
+		func() {
+			defer func() {
+				if r := recover(); r != nil && res.Violation == nil {
+					res.Violation = &Violation{Property: property, Invariant: "harness-panic", Site: "harness", Detail: fmt.Sprint(r) + "\n" + string(debugStack())}
+				}
+			}()
+			body(rc)
+		}()
+		res.OK = res.Violation == nil
+		res.Tape = tape.Values()
+		res.LogHash = w.LogHash()
+		res.Counters = w.Counters
+		if !res.OK {
+			res.Trace = w.Trace(400)
+		}
+		return res
+	}
 	func() {
 		defer func() {
 			if r := recover(); r != nil {
